@@ -405,6 +405,14 @@ func (e *Environment) noteReplaced(name string, old Object) {
 	}
 }
 
+// NoteSelfCall records that the function running in this environment calls itself: the new frame will have this one as
+// its outer scope (also when the call is answered from the cache: what was remembered assumed this frame as it was).
+func (e *Environment) NoteSelfCall(fn Function) {
+	if e.cacheKey == fn.CacheKey {
+		e.closures = true
+	}
+}
+
 // NoteClosure records that a function was created in this environment.
 func (e *Environment) NoteClosure() {
 	e.closures = true
@@ -548,8 +556,6 @@ func NewFunctionEnvironment(fn Function, current *Environment) (*Environment, bo
 	sameFunction := (current.cacheKey == fn.CacheKey)
 	if !sameFunction {
 		parent = fn.Env
-	} else {
-		current.closures = true // the caller's frame is the outer scope of this call, like for a function created in it.
 	}
 	env := &Environment{
 		store:    make(map[string]Object),
